@@ -30,7 +30,11 @@ RULE = (
     "ranges, ternaries with branch/tail filters, {% liquid %} line statements, nested paths, comments "
     "of all three kinds before markup, whitespace-control markers), (b) the shared program generator "
     "of C01 emitted with comments/noisy layouts and partials under 'snippets/', (c) hand-written cases, "
-    "(d) programs with a dynamic partial name analysed with include_partials=False; each program is "
+    "(d) programs with a dynamic partial name analysed with include_partials=False, (e) every fifth generated "
+    "program has no `for` tag; the values iterated/bound by for, tablerow, render/include for|with, with and "
+    "cycle range over mapping, int, float, string, bool, nil, undefined, nested list, empty list, tuple, "
+    "range; bodies/partials mention forloop, tablerowloop, args/kwargs, block, count, aliases; half of the data "
+    "sets carry user globals of those names; each program is "
     "analysed (sync, and async under a real event loop, 16 helper calls) through a plain DictLoader (40 %), "
     "a DictLoader whose get_source_async suspends 1-3 times (42 %) or a FileSystemLoader over a scratch "
     "directory (18 %), and rendered sync/async with 6 data sets (all-true/rich, "
@@ -41,11 +45,19 @@ RULE = (
 ASSUMPTIONS = [
     "elsif/else/when/plural/end* markers are parts of their tag (analyze() never lists them); "
     "comment and raw markup are not tags",
-    "'the template never binds the name' is read conservatively: a name bound by ANY template of the "
-    "set in ANY scope (assign, capture, loop variable, with, macro parameter, include/render "
-    "argument or alias, lambda parameter, counter, translate argument, forloop/tablerowloop/block/"
-    "args/kwargs) - as known to the generator or observed at run time - is excluded from the "
-    "globals check",
+    "'the template never binds the name': a name is taken as bound when (a) an identifier written in some "
+    "template of the set binds it in ANY scope (assign, capture, loop variable, with, macro parameter, "
+    "include/render argument or alias incl. the default alias derived from the partial's name, lambda "
+    "parameter, counter, translate argument), or a tag that binds it for certain is written in the set "
+    "(`for` -> forloop, `tablerow` -> tablerowloop, `macro` -> args/kwargs, `block` -> block), or (b) the "
+    "render under observation actually bound it (assign/extend/copy/counter trace); `render ... for` is NOT "
+    "a certain binder of forloop (it binds it only for sequences), so forloop there is decided by (b)",
+    "lookups of names that ARE bound somewhere but were served by the global namespace while analyze() "
+    "treats the occurrence as in scope (for-else, capture inside its own block, isolated macro bodies, "
+    "extends inside a rendered partial, translate's context argument, statements after extends, `seen` "
+    "keyed by name) are outside the property's clause: they are counted (`diag:*`) and the nine hand probes' "
+    "verdicts are in observed_sets.probe_results, not reported as violations (switches "
+    "SCOPE_MISMATCH_IS_VIOLATION in vf/c11_mon.py, PROBE_CLAUSE_VIOLATIONS_REPORTED here)",
     "dynamic partial names and dynamic root segments (`{{ [a.b] }}`) are outside the workload, except "
     "for root-template facts under include_partials=False",
     "a runtime lookup is matched to the static report by (template named in the span, start, stop) "
@@ -72,6 +84,7 @@ def shards(tier: str, seed: int) -> list[dict[str, Any]]:
         specs.append({"kind": "shared", "i": i, "n": n_sh, "count": 60 if q else 1500})
     specs.append({"kind": "dyn", "i": 0, "n": 1, "count": 50 if q else 1200})
     specs.append({"kind": "hand", "i": 0, "n": 1})
+    specs.append({"kind": "probes", "i": 0, "n": 1})
     return specs
 
 
@@ -225,8 +238,11 @@ def _own(spec: dict[str, Any], ctx: Ctx, dynamic: bool = False) -> None:
     for j in range(spec["count"]):
         ctx.check_deadline()
         rng = random.Random(f"{spec['seed']}:{spec['kind']}:{spec['i']}:{j}")
-        g = G.G(rng, G.Opts(dynamic=dynamic, inherit=0.0 if dynamic else 0.3))
+        no_for = (not dynamic) and j % 5 == 4  # every fifth program has no `for` tag at all
+        g = G.G(rng, G.Opts(dynamic=dynamic, inherit=0.0 if dynamic else (0.15 if no_for else 0.3), no_for=no_for))
         case = g.program()
+        if no_for:
+            case["features"].append("no-for-tag")
         case["datasets"] = g.datasets(DATASETS)
         case["loader"] = pick_loader(spec["seed"], "loader", spec["kind"], spec["i"], j)
         _run(ctx, chk, case, [spec["kind"], spec["seed"], spec["i"], j])
@@ -241,7 +257,7 @@ def _own(spec: dict[str, Any], ctx: Ctx, dynamic: bool = False) -> None:
 def model_binders(prog: Any) -> set[str]:
     from ..gen import model as M
 
-    out = {"forloop", "tablerowloop", "args", "kwargs", "block"}
+    out: set[str] = set()
 
     def walk(o: Any) -> None:
         if isinstance(o, (list, tuple)):
@@ -259,11 +275,12 @@ def model_binders(prog: Any) -> set[str]:
         elif isinstance(o, (M.Assign, M.Capture, M.Incr, M.Decr)):
             out.add(o.name)
         elif isinstance(o, M.For):
-            out.add(o.var)
+            out.update([o.var, "forloop"])  # a `for` tag binds forloop whenever its body runs
         elif isinstance(o, M.With):
             out.update(k for k, _ in o.binds)
         elif isinstance(o, M.Macro):
             out.update(k for k, _ in o.params)
+            out.update(["args", "kwargs"])
         elif isinstance(o, M.Call):
             out.update(k for k, _ in o.kwargs)
         elif isinstance(o, M.Partial):
@@ -381,9 +398,105 @@ HAND: list[tuple[str, dict[str, str], str]] = [
         "{% for row in rows %}{% render 'sub/deep.liquid' %}{% endfor %}{{ row.k }}{{ forloop.index }}"),
         "row.liquid": "<{{ item }}>", "card.liquid": "({{ label }}/{{ title }}/{{ z }})",
         "sub/deep.liquid": "{{ who }}{% render 'row.liquid', item: lim %}"}, "loop.liquid"),
+    ("binders-over-non-sequences", {"index": (
+        "{% render 'row.html' for h %}{% render 'row.html' for n as it2 %}{% render 'row.html' for nothing %}"
+        "{% render 'row.html' for s %}{% render 'row.html' for pair.nosuch %}{% render 'row.html' for f %}"
+        "{% include 'inc.html' for page %}{% include 'inc.html' for flag as z %}"
+        "{% cycle h, nothing, grid %}{% with wa: grid, wb: pair %}{{ wa }}{{ wb }}{% endwith %}"),
+        "row.html": "[{{ row }}{{ it2 }}{{ forloop.index }}/{{ forloop.length }}]",
+        "inc.html": "({{ inc }}{{ z }}{{ forloop.index }})"}, "index"),
+    ("binders-over-sequences", {"index": (
+        "{% render 'row.html' for xs %}{% render 'row.html' for pair as it2 %}{% render 'row.html' for grid %}"
+        "{% render 'row.html' for none %}{% include 'inc.html' for words %}{% include 'inc.html' for (1..n) as z %}"
+        "{% tablerow r in grid cols: 2 %}{{ r }}{{ tablerowloop.col }}{% endtablerow %}{{ tablerowloop.col }}"
+        "{% tablerow r in h %}{{ r }}{{ tablerowloop.row }}{% endtablerow %}"
+        "{% macro mm pa %}{{ args }}{{ kwargs.extra }}{{ pa }}{% endmacro %}{% call mm 1, 2, extra: s %}{{ args }}"),
+        "row.html": "[{{ row }}{{ it2 }}{{ forloop.index }}/{{ forloop.length }}]",
+        "inc.html": "({{ inc }}{{ z }}{{ forloop.index }})"}, "index"),
     ("implicit-lookups", {"index": (
         "{{ 'Hello %(who)s' | t }}{{ 'Bye %(you)s' | t: you: s }}{{ 'x' | gettext }}")}, "index"),
 ]
+
+
+RE_FOR = re.compile(r"(?:\{%[-+~]?|\n)\s*for\s+[\w-]+\s+in\b")
+RE_TABLEROW = re.compile(r"(?:\{%[-+~]?|\n)\s*tablerow\s")
+RE_MACRO = re.compile(r"(?:\{%[-+~]?|\n)\s*macro\s")
+RE_BLOCK = re.compile(r"(?:\{%[-+~]?|\n)\s*block\s")
+
+
+def certain_implicit_binders(templates: dict[str, str]) -> set[str]:
+    """Names bound for certain by a tag written in the set (`render ... for` is not one:
+    it binds forloop only when its value is a sequence)."""
+    out: set[str] = set()
+    for src in templates.values():
+        if RE_FOR.search(src):
+            out.add("forloop")
+        if RE_TABLEROW.search(src):
+            out.add("tablerowloop")
+        if RE_MACRO.search(src):
+            out.update(["args", "kwargs"])
+        if RE_BLOCK.search(src):
+            out.add("block")
+    return out
+
+
+HAND_EXPLICIT = {"v1", "v2", "tmp", "i", "x", "row", "el", "it", "idx", "e", "pa", "pb", "wa", "wb", "you",
+                 "count", "c1", "ka", "kb", "al", "card", "plain", "snippets/card", "snippets/sub/row", "item",
+                 "label", "z", "it2", "inc", "r"}
+
+# The probes' verdicts always go to the evidence; their clause violations (if any) become
+# violations of the run only when this is True.
+PROBE_CLAUSE_VIOLATIONS_REPORTED = False
+
+# (n, what the seeding agent says, templates, root, data) -- checked on the unchanged tree; the
+# verdicts go to the evidence (set `probe_results`, notes), see SCOPE_MISMATCH_IS_VIOLATION
+PROBES: list[tuple[str, str, dict[str, str], str, dict[str, Any], set[str]]] = [
+    ("2", "for block scope covers the else branch",
+     {"t": "{% for i in y %}{% else %}{{ i }}{% endfor %}"}, "t", {"y": [], "i": "G"}, {"i", "forloop"}),
+    ("3", "capture name is in scope inside its own block",
+     {"t": "{% capture x %}{{ x }}{% endcapture %}"}, "t", {"x": "G"}, {"x"}),
+    ("4a", "macro body analysed in the enclosing scope (reads)",
+     {"t": "{% assign x = 1 %}{% macro m %}{{ x }}{% endmacro %}{% call m %}"}, "t", {"x": "G"},
+     {"x", "args", "kwargs"}),
+    ("4b", "macro body analysed in the enclosing scope (assign inside leaks out)",
+     {"t": "{% macro m %}{% assign q = 1 %}{% endmacro %}{% call m %}{{ q }}"}, "t", {"q": "G"},
+     {"q", "args", "kwargs"}),
+    ("5", "extends inside a rendered partial analysed on the root scope",
+     {"t": "{% assign x = 1 %}{% render 'a' %}", "a": "{% extends 'b' %}", "b": "{{ x }}"}, "t", {"x": "G"}, {"x"}),
+    ("6", "translate pops its context argument",
+     {"t": "{% translate context: 'c' %}Hi {{ context }}{% endtranslate %}"}, "t", {"context": "G"}, {"context"}),
+    ("7", "default alias derived from the literal name, not from the loaded template's name",
+     {"t": "{% render 'sub/card.html' with p %}", "sub/card.html": "{{ card }}{{ sub }}"}, "t",
+     {"p": 1, "card": "G", "sub": "G"}, {"card", "sub/card"}),
+    ("8", "statements after extends, outside blocks, add to the static scope",
+     {"t": "{% extends 'b' %}{% assign x = 1 %}{% block c %}{{ x }}{% endblock %}", "b": "{% block c %}{% endblock %}"},
+     "t", {"x": "G"}, {"x", "block"}),
+    ("7b", "default alias: literal name with a dotted directory ('sub.d/card.html' binds `card`, analysis binds `sub`)",
+     {"t": "{% render 'sub.d/card.html' with p %}", "sub.d/card.html": "{{ card }}{{ sub }}"}, "t",
+     {"p": 1, "card": "G", "sub": "G"}, {"card"}),
+    ("9", "seen keyed by name only: include then render of the same partial",
+     {"t": "{% assign x = 1 %}{% include 'a' %}{% render 'a' %}", "a": "{{ x }}"}, "t", {"x": "G"}, {"x"}),
+]
+
+
+def _probes(spec: dict[str, Any], ctx: Ctx) -> None:
+    chk = MON.Checker(ctx)
+    for n, label, templates, root, data, binders in PROBES:
+        case = {"templates": templates, "root": root, "dynamic": False, "binders": sorted(binders),
+                "datasets": [data], "loader": "dict", "features": ["probe:" + n]}
+        res = MON.run_case(chk, case)
+        ctx.count("cases")
+        diag = [f"{d['name']!r} at {d['template'][0]}[{d['start']}:{d['stop']}] ({d['via']}, in {d['node']})"
+                for d in chk.diag]
+        viol = [k for k, _w, _d in (res or []) if not k.startswith(("span:", "analyze-async:", "helper:"))]
+        verdict = ("served by the global namespace but not reported as a global: " + "; ".join(diag)) if diag \
+            else "no scope mismatch observed"
+        if viol:
+            verdict += " | clause violations: " + ", ".join(sorted(set(viol)))
+        ctx.seen("probe_results", f"({n}) {label}: {verdict}")
+        ctx.note(f"probe ({n}) {label}: {templates} data={data}: {verdict}")
+        if res and PROBE_CLAUSE_VIOLATIONS_REPORTED:
+            report(ctx, case, res, ["probe", n])
 
 
 def _hand(spec: dict[str, Any], ctx: Ctx) -> None:
@@ -391,9 +504,7 @@ def _hand(spec: dict[str, Any], ctx: Ctx) -> None:
     rng = random.Random(f"{spec['seed']}:hand")
     for label, templates, root in HAND:
         datas = [G.make_data(rng, v) for v in range(DATASETS)]
-        binders = {"forloop", "tablerowloop", "block", "args", "kwargs", "v1", "v2", "tmp", "i", "x", "row",
-                   "el", "it", "idx", "e", "pa", "pb", "wa", "wb", "you", "count", "c1", "ka", "kb", "al",
-                   "card", "plain", "snippets/card", "snippets/sub/row", "item", "label", "z"}
+        binders = HAND_EXPLICIT | certain_implicit_binders(templates)
         for lk in MON.LOADER_KINDS:
             case = {"templates": templates, "root": root, "dynamic": False, "binders": sorted(binders),
                     "datasets": datas, "loader": lk, "features": ["hand:" + label, "loader:" + lk]}
@@ -411,6 +522,8 @@ def run_shard(spec: dict[str, Any], ctx: Ctx) -> None:
         _shared(spec, ctx)
     elif kind == "hand":
         _hand(spec, ctx)
+    elif kind == "probes":
+        _probes(spec, ctx)
 
 
 def replay(wit: dict[str, Any], ctx: Ctx) -> None:
